@@ -130,7 +130,11 @@ class Builder:
         src = self.I.repo.source_info(fn)
         self.I.lemma_sources = getattr(self.I, 'lemma_sources', {})
         self.I.lemma_sources[qualname] = src
-        return self.I.call_function(fn, list(args), kwargs)
+        loops = kwargs.pop('_loops', None)
+        if loops:
+            for k, v in loops.items():
+                v.ordinal = k
+        return self.I.call_function(fn, list(args), kwargs, loop_contracts=loops)
 
     def call(self, qualname, *args, **kwargs):
         """modular call through the callee's contract (requires become obligations,
@@ -230,7 +234,7 @@ class ContractUse:
     def apply(self, interp, fn, args, kwargs):
         loc = interp.bind(fn, args, kwargs)
         c = Builder(interp, 'assume')
-        for case in self.cases:
+        for case in sorted(self.cases, key=lambda cs: -getattr(cs, 'priority', 0)):
             acc = getattr(case, 'accepts', None)
             if acc is not None and not acc(c, **loc):
                 continue
